@@ -43,12 +43,14 @@ opkinds! {
     BarrierOnly = 16, 3;   // (path, p, c)
     Adopt2 = 17, 3;        // (p, c0, c1): backward_barrier(p, None) then two raw stores
     AdoptBy2 = 18, 3;      // (c, p0, p1): forward_barrier(None, c) then raw stores into p0.s[0], p1.s[0]
-    NewCell = 19, 2;       // (p, kind): kind 0 Lock 1 RefLock 2 OnceLock, stored in p.cell through Gc::write
+    NewCell = 19, 2;       // (p, kind): kind 0 Lock 1 RefLock 2 OnceLock 3 Lock<weak> 4 RefLock<weak>, stored in p.cell through Gc::write
     DropCell = 20, 1;      // (p)
     CellSet = 21, 2;       // (p, c): Gc<Lock>::set / Gc<RefLock>::borrow_mut / Gc<OnceLock>::set
     CellSetNew = 22, 1;    // (p)
     CellInitNew = 90, 1;   // (p): Gc<OnceLock>::get_or_init on an EMPTY cell with a closure that allocates a fresh node
     CellClear = 23, 1;     // (p)
+    CellSetWeak = 93, 2;   // (p, c): weak cell of p (kind 3 Gc<Lock<Option<GcWeak>>> / 4 Gc<RefLock<..>>) := downgrade(c) through the safe setter
+    CellSetWeakNew = 94, 1; // (p): the same with a fresh node nobody else points to
     CellInit = 24, 2;      // (p, c): Gc<OnceLock>::get_or_init
     CellSetUp = 25, 2;     // (h, p): upgrade h.w then CellSet
     // ---- non-tracing leaf objects (C10) ----
@@ -63,6 +65,7 @@ opkinds! {
     // ---- dynamic roots (C14) ----
     Stash = 29, 3;         // (hi, c, set)
     CloneH = 30, 2;        // (from, to)
+    CloneFromH = 92, 2;    // (from, to): `to` is an EXISTING handle: hs[to].clone_from(&hs[from])
     DropH = 31, 1;         // (hi)
     FetchRoot = 32, 2;     // (hi, r)
     FetchLink = 33, 3;     // (hi, p, s)
@@ -137,7 +140,7 @@ impl Op {
     pub fn is_mutator(self) -> bool {
         !self.is_collector()
             && !self.is_fin()
-            && !matches!(self.k, K::CloneH | K::DropH | K::PDropH | K::AdjustDebt | K::SetPacing | K::DropArena | K::PresentForeign)
+            && !matches!(self.k, K::CloneH | K::CloneFromH | K::DropH | K::PDropH | K::AdjustDebt | K::SetPacing | K::DropArena | K::PresentForeign)
     }
     pub fn parse(s: &str) -> Option<Op> {
         // "Name(a,b)" or "Name" or "w1:Name(a)"
